@@ -38,6 +38,16 @@ FIXED = [
      "to subprocess: corrupted TLS stream / UnsupportedOperation (also C03, C16)"),
     ("C03", "C03/internal:UnsupportedOperation@http.py:handle", "68146b6",
      "executable script viewed through WAP: BytesIO passed to subprocess as stdout, UnsupportedOperation"),
+    ("C19", "C19/no-chdir-after-chroot", "2942d89",
+     "usechroot=yes: os.chroot() without chdir, the serving process kept a working directory outside the new root"),
+    ("C05", "C05/link-not-found:http:name-starts-with-waptop", "795249e",
+     "a file or directory whose name starts with 'wap' (/wapiti.txt, /wapdir) followed from the HTTP listing was "
+     "claimed by WAP (prefix test without path boundary) and answered not-found (also C02)"),
+    ("C05", "C05/link-kind:doc-advertised-prompt-served:gemini", "8902922",
+     "/GEMINI-QUERYx.txt followed from the Gemini listing was answered '10 Enter input'"),
+    ("C05", "C05/gopher-selector-has-spartan-request-shape", "2a6e19d",
+     "gopher selector '/a b 12' (two blanks, trailing number) followed from the Gopher menu was claimed by Spartan "
+     "and answered '4 not found' (also C02)"),
 ]
 
 KNOWN = [
